@@ -1736,4 +1736,19 @@ example : decodeBody CBV.Gen.c03Body_end_size__start_size__total_expansion = som
     SemEq body_end_start_total body_end_start_total :=
   ⟨body_end_start_total_decoded, SemEq.refl _⟩
 
+/-- A first normaliser for `SemEq` proofs: `canonE` sorts the operands of every `+` and `*` by their token encodings
+    (bottom up — the order the Python translator writes for the closed-form relations).  It does not change the value of
+    an expression in any environment; when *both* operands of a commuted node fail, the kind of error reported may differ,
+    hence the statement on `toOption`. -/
+theorem T_C03_canon_value (env : PEnv) (e : Expr) : (evalE env (canonE e)).toOption = (evalE env e).toOption :=
+  evalE_canonE env e
+
+/-- the source's `length * (1 - c)` and the commuted `(1 - c) * length` have the same normal form — the one the model's
+    tree of `get_start_size__count__c2c_expansion` holds -/
+example :
+    canonE (.mul (.var "length") (.sub (.lit 1) (.var "c2c_expansion"))) =
+      canonE (.mul (.sub (.lit 1) (.var "c2c_expansion")) (.var "length")) ∧
+    canonE (.mul (.var "length") (.sub (.lit 1) (.var "c2c_expansion"))) =
+      .mul (.sub (.lit 1) (.var "c2c_expansion")) (.var "length") := by decide +kernel
+
 end CBV.C03
